@@ -502,8 +502,14 @@ def c17():
     u = U('qptr.cpp', 'debug', defines=['STEPS=1', 'ELEM=std::uint64_t'], extra_glue=['qptr_glue.c'], extern_c=QPTR_EXT)
     qs.append(Query('qptr-seq-debug-1-u64', u, 'h_qptr_seq', unwind=14, replay='none', trace=False,
                     about='assertion-enabled build, qsbr_ptr<std::uint64_t>: one symbolic operation; ghost registry == live non-null wrappers', bounds={'steps': 1, 'slots': 3, 'buffers': 2, 'buffer_len': 8, 'element': 'std::uint64_t'}))
+    # the REAL registry (qsbr.cpp, std::unordered_multiset) behind the wrappers, assertion-enabled build
+    ur = U('qreg.cpp', 'nsdebug', defines=['STEPS=1'])
+    qs.append(Query('qreg-real-1', ur, 'h_qreg_seq', unwind=8, replay='none', trace=False, weight=2,
+                    about='assertion-enabled build with the real per-thread registry: concrete prelude (two wrappers on one address, a third elsewhere), then one symbolic operation out of 7 on symbolic slots; '
+                          'after every step the registry holds each address as often as live wrappers do and is empty exactly when none is alive',
+                    bounds={'steps': 1, 'slots': 3, 'buffer_len': 3, 'prelude': 'constant'}))
     return Check('C17', 'model_checking', qs,
-                 assumptions=['assertion-enabled build: the out-of-line qsbr_ptr_base::register_active_ptr/unregister_active_ptr (qsbr_ptr.cpp, which forwards to the per-thread std::unordered_multiset) are replaced by a ghost '
+                 assumptions=['query qreg-real-1 runs the real registry; std::__detail::_Prime_rehash_policy::_M_need_rehash (compiled libstdc++) is modelled as "never rehash", which keeps the table a correct single-bucket multiset', 'all other assertion-enabled queries: the out-of-line qsbr_ptr_base::register_active_ptr/unregister_active_ptr (qsbr_ptr.cpp, which forwards to the per-thread std::unordered_multiset) are replaced by a ghost '
                               'multiset; that quiescent()/qsbr_pause()/qsbr_resume() assert exactly the emptiness of that registry is taken from reading qsbr.hpp:1392,1479,1493 and qsbr.cpp:134-148, not decided by the solver',
                               'self-assignment is excluded (the property speaks of distinct objects); pointers stay inside their buffer or one past the end'],
                  explanation='Bounded sequences (2-4 steps) of the 13 wrapper operations with symbolic choice at every step, compared with a shadow model after every step.')
